@@ -23,6 +23,7 @@ mod delegs;
 mod repo;
 mod update;
 mod roundtrip;
+mod cache;
 
 pub fn kp() -> Ed25519KeyPair {
     let doc = Ed25519KeyPair::generate_pkcs8(&SystemRandom::new()).unwrap();
@@ -132,6 +133,7 @@ async fn main() {
         "save_targets" => save::op_save_targets(sc).await,
         "filenames" => names::op_filenames(sc),
         "cache_roles" => names::op_cache_roles(sc).await,
+        "cache_roundtrip" => cache::op_cache_roundtrip(sc).await,
         "editor_roundtrip" => roundtrip::op_editor_roundtrip(sc).await,
         "update_preserves" => update::op_update_preserves(sc).await,
         "delegated_paths" => delegs::op_delegated_paths(sc).await,
